@@ -119,6 +119,7 @@ var opNames = []string{
 	"src", "cat", "id", "cat2", "pick", "tuple", "nested", "rec", "field", "method", "iface", "ifaceval",
 	"global", "globalfn", "cloread", "cloparam", "clowrite", "funcval", "apply", "map", "slice", "chan",
 	"ptrparam", "phi", "loop", "constarg", "deferres", "sinkhelper", "cloretclo", "field2", "retstruct",
+	"sinkhelper2", "sinkclosure", "globalfn2",
 }
 
 func (c *caseGen) op(name string) {
@@ -267,6 +268,31 @@ func (c *caseGen) op(name string) {
 		c.emit("%s := %s", v, a)
 		c.root[v] = c.rootOf(a)
 		p.sinkOps[p.nsink] = append([]string(nil), c.ops...)
+	case "sinkhelper2":
+		// one helper holding the backtrace point, called from two sites with different data: without
+		// calling context the parameter must flow back to ALL call sites
+		h := p.helper()
+		p.nsink++
+		fmt.Fprintf(&p.top, "func %s(p string) { sink(%d, p) }\n", h, p.nsink)
+		a, b := c.pick2()
+		c.emit("%s(%s)", h, a)
+		c.emit("%s(%s)", h, b)
+		c.emit("%s := %s + %s", v, a, b)
+		p.sinkOps[p.nsink] = append([]string(nil), c.ops...)
+	case "sinkclosure":
+		// the backtrace point sits inside a closure and reads a captured variable
+		p.nsink++
+		a := c.pick()
+		c.emit("func() { sink(%d, %s) }()", p.nsink, a)
+		c.emit("%s := %s", v, a)
+		c.root[v] = c.rootOf(a)
+		p.sinkOps[p.nsink] = append([]string(nil), c.ops...)
+	case "globalfn2":
+		g := "g" + p.helper()
+		fmt.Fprintf(&p.top, "var %s string\n\nfunc set%s(p string) { %s = p }\n\nfunc get%s() string { return %s }\n", g, g, g, g, g)
+		a, b := c.pick2()
+		c.emit("if cond(%d) {\n\t\tset%s(%s)\n\t} else {\n\t\tset%s(%s)\n\t}", p.condBit(), g, a, g, b)
+		c.emit("%s := get%s()", v, g)
 	default:
 		panic("unknown op " + name)
 	}
